@@ -544,9 +544,11 @@ class E(object):
     def __init__(self, tag):
         self.tag = tag
         self.a = vsc.rand_bit_t(3)
+        self.r = vsc.randsz_list_t(vsc.bit_t(3))      # a random-size list owned by the element
     @vsc.constraint
     def ce(self):
         self.a != 7
+        self.r.size.inside(vsc.rangelist(vsc.rng(1, 3)))
 
 @vsc.randobj
 class T(object):
@@ -752,6 +754,20 @@ def run_objlist(case):
                            where + ": element %d (tag %s) has a=%d, body: a %s %d" % (i, e.tag, int(e.a), case["op"], i + k))], info
             if not rand_elems and int(e.a) != before[i]:
                 return [Vo("nonrandom_list_changed", "an element of a non-random object list changed", where)], info
+            try:
+                rl = [int(x) for x in e.r]
+                r_ok = len(e.r) == e.r.size == len(rl) and all(int(e.r[j]) == rl[j] for j in range(len(rl)))
+                r_desc = "len=%d size=%d iterated=%d" % (len(e.r), e.r.size, len(rl))
+            except Exception as ex_:
+                r_ok, rl, r_desc = False, None, "len=%s size=%s, iteration raised %r" % (len(e.r), e.r.size, ex_)
+            if not r_ok:
+                return [Vo("length_disagree", "len(), size, indexing and iteration of a random-size list inside a list element disagree", 
+                           where + ": element %d (tag %s): %s" % (i, e.tag, r_desc))], info
+            if rand_elems and not (1 <= len(rl) <= 3):
+                return [Vo("list_constraint_violated", "size constraint of a random-size list inside a list element", 
+                           where + ": element %d (tag %s): %d elements, its block says 1..3" % (i, e.tag, len(rl)))], info
+            if not rand_elems and rl:
+                return [Vo("nonrandom_list_changed", "a random-size list inside an element of a non-random object list changed", where + ": %s" % rl)], info
             if rand_elems and int(e.a) == 7:
                 return [Vo("list_constraint_violated", "the own constraint block of a list element is not enforced", 
                            where + ": element %d (tag %s) has a=7, its block says a != 7" % (i, e.tag))], info
